@@ -30,9 +30,9 @@ def h_decode(ctx, elo, ehi):
     ctx.check(got == R.compact_decode_abs(ctx, c), 'decode==core-setcompact')
 
 
-def h_encode(ctx):
+def h_encode(ctx, lo=0, hi=(1 << 256) - 1):
     S = ctx.serialize
-    v = ctx.int('v', 0, (1 << 256) - 1)
+    v = ctx.int('v', lo, hi)
     c = S.compact_from_uint256(v)
     ctx.check((c & 0x00800000) == 0, 'encode: sign bit clear')
     ctx.check(ctx.and_(c >= 0, c <= 0xffffffff), 'encode: fits 32 bits')
@@ -101,7 +101,9 @@ def instances(tier):
     bands = [(0, 8), (9, 40)] if tier == 'quick' else [(a, min(a + 15, 255)) for a in range(0, 256, 16)]
     for lo, hi in bands:
         out.append(dict(h='decode', p=dict(elo=lo, ehi=hi)))
-    out.append(dict(h='encode'))
+    cuts = [0, 1 << 24, 1 << 64, 1 << 128, 1 << 192, 1 << 224, 1 << 256]
+    for a, b in zip(cuts, cuts[1:]):
+        out.append(dict(h='encode', p=dict(lo=a, hi=b - 1)))
     out.append(dict(h='encode_small'))
     for ch in CHAINS:
         out.append(dict(h='pow', p=dict(chain=ch)))
